@@ -38,3 +38,7 @@ def run(ctx, crate):
     # (an early `nothing to paint` return leaves the wrapped rows of the last bar on screen and in the count: seed C19m)
     from .c02 import rule_multi_draw_total
     rule_multi_draw_total(ctx, crate)
+    # "later redraws still erase it completely; omitted bars appear as soon as there is room": a bar that leaves the ordering is taken
+    # off the screen by a forced repaint - a refused one leaves its (wrapped) rows, and the next in-place reap keeps the wrong ones
+    from .c02 import rule_removal_keeps_screen_current
+    rule_removal_keeps_screen_current(ctx, crate)
